@@ -45,6 +45,8 @@ SPECIAL_FEATURES = {'triple', 'prefix', 'escape', 'strstr', 'arity2', 'bigdiv'}
 MALFORMED_REGIONS = {'badref', 'confuse', 'tilde', 'otherfn', 'arity', 'upperhex', 'fmt'}
 REGION_FEATURE = {'triple', 'prefix', 'escape', 'strstr', 'arity'}
 KEY_PRIORITY = ['escape']
+# a triple-quoted / prefixed string literal as the WHOLE enum value takes the Literal shortcut of py2cpp.py:847 (tokens[1:-1], no evaluator)
+LONE_LITERAL_KEY = 'output-lone-nonplain-string-literal'
 
 
 # ---------------------------------------------------------------------------------------------
@@ -472,6 +474,8 @@ class RecordingReflections:
 	def __init__(self, inner: Any) -> None:
 		self._inner = inner
 		self.outcomes: dict[str, set[str]] = {}
+		self.results: dict[str, Any] = {}        # node path -> the symbol type_of answered last
+		self.log: list[tuple[str, str]] = []     # (node path, outcome) in call order
 
 	def type_of(self, node: Any) -> Any:
 		from rogw.tranp.errors import Errors
@@ -479,11 +483,15 @@ class RecordingReflections:
 			r = self._inner.type_of(node)
 		except Errors.Error as e:
 			self.outcomes.setdefault(node.full_path, set()).add(show_error(e).replace('Errors.Fatal:', 'Errors.Fatal.'))
+			self.log.append((node.full_path, show_error(e).replace('Errors.Fatal:', 'Errors.Fatal.')))
 			raise
 		except Exception as e:  # noqa: BLE001 - reaches the caller as Errors.Fatal (procedure.py:180)
 			self.outcomes.setdefault(node.full_path, set()).add(f'Errors.Fatal.{type(e).__name__}')
+			self.log.append((node.full_path, f'Errors.Fatal.{type(e).__name__}'))
 			raise
 		self.outcomes.setdefault(node.full_path, set()).add('-')
+		self.results[node.full_path] = r
+		self.log.append((node.full_path, '-'))
 		return r
 
 	def __getattr__(self, name: str) -> Any:
@@ -727,6 +735,9 @@ class Case:
 		self.oracle: dict[str, str] = {}
 		self.error: str | None = None
 		self.real2: dict[str, str] = {}  # the same evaluator instance asked again, in shuffled order
+		self.emit_lines: list[str] = []  # `emit` ops of the output cases
+		self.out: dict[str, str] = {}    # what the real Py2Cpp emitted for `Enum.Member.value` (text <hex> | error)
+		self.shape: dict[str, str] = {}  # kind of the member's value node (lone string literal token / signed non-literal / '')
 
 
 def observe(app: Any, case: Case, rng: random.Random | None = None) -> None:
@@ -797,6 +808,8 @@ def case_lines(c: Case, which: str) -> list[str]:
 		lines.extend(f'py\tpy\t{hx(m.key)}' for m in c.members)
 	if which == 'all':
 		lines.extend(f'py\tstrict\t{hx(m.key)}' for m in c.members)
+	if which in ('emit', 'all'):
+		lines.extend(c.emit_lines)
 	return lines
 
 
@@ -1119,18 +1132,111 @@ def compare_output(text: str, py: Any, escaped: bool) -> str | None:
 	return f'the emitted text {text!r} is a {kind}, CPython gives {show_value(py)}'
 
 
-def search_output(ctx: Ctx, only: list[list[Member]] | None = None) -> SearchResult:
-	"""Transpile `Enum.Member.value` reads with the real Py2Cpp; the emitted literal must be CPython's value of the member (py2cpp.py:842-848)."""
+def observe_output(app: Any, case: Case) -> None:
+	"""Transpile every `Enum.Member.value` read of the module with the real Py2Cpp. The transpiler's two collaborators are observed:
+	`reflections` (the type answers `on_relay` takes: inputs of `emitValue`) and, inside a fresh LiteralEvaluator, the `type_of`
+	outcomes at reference nodes (inputs of `execImpl`)."""
+	import rogw.tranp.semantics.reflection.definition as refs
 	import rogw.tranp.syntax.node.definition as defs
-	from rogw.tranp.errors import Errors
 	from rogw.tranp.implements.cpp.transpiler.py2cpp import Py2Cpp
-	res = SearchResult('emitted text of Enum.Member.value == eval(member value) with equal type, or an application error — real Py2Cpp vs CPython eval')
+	from rogw.tranp.implements.transpiler.evaluator import LiteralEvaluator
+	from rogw.tranp.semantics.reflections import Reflections
+	source = case.source + 'def f() -> None:\n' + ''.join(f'\t{m.enum}.{m.name}.value\n' for m in case.members)
+	case.full_source = source
+	mod = app.module(source)
+	transpiler = app.resolve(Py2Cpp)
+	real = app.resolve(Reflections)
+	outer = RecordingReflections(real)
+	inner = RecordingReflections(real)
+	transpiler.reflections = outer
+	transpiler.evaluator = LiteralEvaluator(inner)
+	fn = [st for st in mod.entrypoint.statements if isinstance(st, defs.Function)][0]
+	reads = list(fn.statements)
+	by_name = {c.domain_name: c for c in mod.entrypoint.statements if isinstance(c, defs.Enum)}
+	assert len(reads) == len(case.members)
+	nodes: dict[str, Any] = {}
+	ty: dict[str, tuple[str, str, str]] = {}
+	for m, node in zip(case.members, reads):
+		value_node = by_name[m.enum].var_value(m.name)
+		nodes[m.key] = value_node
+		start = len(outer.log)
+		try:
+			case.out[m.key] = 'text ' + hx(transpiler.transpile(node))
+		except Exception as e:  # noqa: BLE001
+			case.out[m.key] = show_error(e)
+		failed = [o for _, o in outer.log[start:] if o != '-']
+		asked = (value_node.full_path, '-') in outer.log[start:]
+		if failed:
+			ty[m.key] = (failed[0], '-', '0')
+		elif not asked and not case.out[m.key].startswith('text '):
+			# the symbol table itself raised while resolving the receiver / the member (lazy type inference inside Reflections),
+			# before line 845 was reached: the collaborator's failure is the input
+			ty[m.key] = (case.out[m.key].replace('Errors.Fatal:', 'Errors.Fatal.'), '-', '0')
+		elif asked:
+			sym = outer.results[value_node.full_path].impl(refs.Object)
+			ty[m.key] = ('-', hx(transpiler.to_domain_name(sym)), '1' if sym.type_is(str) else '0')
+		else:
+			raise Unencodable('on_relay did not ask for the type of the member value')
+		if isinstance(value_node, defs.String):
+			case.shape[m.key] = 'lone-string:' + value_node.tokens
+		elif isinstance(value_node, defs.Factor) and not isinstance(value_node.value, defs.Literal):
+			case.shape[m.key] = 'signed-non-literal'
+	case.py = python_results(case.enums)
+	enc: list[str] = []
+	for ms in case.enums:
+		own = {m.name for m in ms}
+		for m in ms:
+			enc.append(f'm:{hx(m.key)} {encode(nodes[m.key], m.enum, own, inner.outcomes)}')
+	known = KNOWN_FUNCS + [ms[0].enum for ms in case.enums]
+	case.env_line = f"env\t{','.join(hx(k) for k in known)}\t{' '.join(enc)}"
+	case.emit_lines = [f'emit\t{hx(m.key)}\t{ty[m.key][0]}\t{ty[m.key][1]}\t{ty[m.key][2]}' for m in case.members]
+	case.members_for_impl = False
+
+
+def make_output_cases(ctx: Ctx, only: list[list[Member]] | None = None) -> list[Case]:
 	rng = ctx.sub_rng('output')
 	app = make_py2cpp_app(ctx)
 	regions = ALL_REGIONS - {'confuse'}
-	modules: list[tuple[list[list[Member]], str]] = [(enums, f'corpus:{label}') for label, enums in load_corpus()] if only is None else [(only, 'replay')]
+	cases = [Case(enums, f'corpus:{label}') for label, enums in load_corpus()] if only is None else [Case(only, 'replay')]
 	for i in range(ctx.scale(110, 500) if only is None else 0):
-		modules.append((gen_module(rng, regions, 1 + i % 4, 1 + i % 3, 4 + i % 5, boost=3.0 if i % 6 == 5 else 1.0, homogeneous=True), f'output#{i}'))
+		cases.append(Case(gen_module(rng, regions, 1 + i % 4, 1 + i % 3, 4 + i % 5, boost=3.0 if i % 6 == 5 else 1.0, homogeneous=i % 4 != 3), f'output#{i}'))
+	for c in cases:
+		try:
+			observe_output(app, c)
+		except Unencodable as e:
+			c.error = f'unencodable: {e}'
+		except Exception as e:  # noqa: BLE001
+			c.error = f'observe: {exc_enum(e)}'
+	return cases
+
+
+def stream_emit(ctx: Ctx, cases: list[Case]) -> Stream:
+	triples = []
+	n = 0
+	for c in cases:
+		if c.error is not None:
+			continue
+		ops = case_lines(c, 'emit')
+		real = [f'ok {len(c.members)}'] + ['ok'] * len(c.oracle) + [c.out[m.key] for m in c.members]
+		triples.append(({'class': c.label.split('#')[0].split(':')[0], 'label': c.label, 'source': c.source}, ops, real))
+		n += len(c.members)
+	st = common.correspond('emitvalue', triples, 'eval', classify=classify_case)
+	hist: dict[str, int] = {}
+	for c in cases:
+		for m in c.members:
+			k = c.out.get(m.key, 'dropped').split(' ')[0]
+			hist[f'result:{k}'] = hist.get(f'result:{k}', 0) + 1
+	st.histogram = {**st.histogram, **hist}
+	st.cases = n
+	st.distinct = len({m.text for c in cases if c.error is None for m in c.members})
+	st.note = ('the text the real Py2Cpp.on_relay inlines for every Enum.Member.value read of generated modules (all-numeric, all-string and mixed enums; '
+		'literal shortcut, folded values, negative numbers in parentheses, quoting by the inferred type) vs emitValue; the type answers of Reflections are inputs')
+	return st
+
+
+def search_output(ctx: Ctx, cases: list[Case]) -> SearchResult:
+	"""The emitted literal of every `Enum.Member.value` read must be CPython's value of the member (py2cpp.py:842-852)."""
+	res = SearchResult('emitted text of Enum.Member.value == eval(member value) with equal type, or an application error — real Py2Cpp vs CPython eval')
 	hist: dict[str, int] = {}
 	texts = set()
 
@@ -1139,62 +1245,60 @@ def search_output(ctx: Ctx, only: list[list[Member]] | None = None) -> SearchRes
 		if sum(1 for f in res.findings if f.key == key) < 3:
 			res.findings.append(Finding(key=key, what=what, replay=replay))
 
-	for enums, label in modules:
-		members = [m for ms in enums for m in ms]
-		source = module_source(enums) + 'def f() -> None:\n' + ''.join(f'\t{m.enum}.{m.name}.value\n' for m in members)
-		try:
-			mod = app.module(source)
-			transpiler = app.resolve(Py2Cpp)
-			fn = [st for st in mod.entrypoint.statements if isinstance(st, defs.Function)][0]
-			reads = list(fn.statements)
-			by_name = {c.domain_name: c for c in mod.entrypoint.statements if isinstance(c, defs.Enum)}
-			assert len(reads) == len(members)
-		except Exception as e:  # noqa: BLE001
-			add('module-rejected', f'tranp does not load a generated Enum module with .value reads: {exc_enum(e)}', {'source': source, 'kind': 'output'})
+	def klass(v: Any) -> str:
+		return 'exc' if _is_exc(v) else 'str' if type(v) is str else 'num' if type(v) in (int, float) else 'other'
+
+	for c in cases:
+		source = getattr(c, 'full_source', c.source)
+		if c.error is not None:
+			if c.error.startswith('observe:'):
+				add('module-rejected', f'tranp does not load a generated Enum module with .value reads: {c.error}', {'source': source, 'kind': 'output'})
 			continue
-		py = python_results(enums)
-		def klass(v: Any) -> str:
-			return 'exc' if _is_exc(v) else 'str' if type(v) is str else 'num' if type(v) in (int, float) else 'other'
-		mixed = [ms[0].enum for ms in enums if klass(py[ms[0].key]) not in ('str', 'num') or {klass(py[m.key]) for m in ms} - {'exc', klass(py[ms[0].key])}]
+		py = c.py
+		mixed = [ms[0].enum for ms in c.enums if klass(py[ms[0].key]) not in ('str', 'num') or {klass(py[m.key]) for m in ms} - {'exc', klass(py[ms[0].key])}]
 		if mixed:
 			# tranp types `Enum.X.value` by the enum's first member (an enum mixing strings and numbers, or starting with a member that is
 			# neither, is outside its typing, C03): whether the literal is quoted follows that type, so such modules are not judged here
 			hist['info:module-with-mixed-enum-skipped'] = hist.get('info:module-with-mixed-enum-skipped', 0) + 1
 			continue
-		for m, node in zip(members, reads):
+		for m in c.members:
 			res.cases += 1
 			texts.add(m.text)
-			try:
-				text = transpiler.transpile(node)
-			except Errors.Error:
+			out = c.out[m.key]
+			if out.startswith('Errors.'):
 				hist['refused'] = hist.get('refused', 0) + 1
 				continue
-			except Exception as e:  # noqa: BLE001
-				add('output-non-app-error', f'{m.key} = {m.text}: transpiling {m.enum}.{m.name}.value raised {exc_enum(e)}, which is not an application error',
+			if not out.startswith('text '):
+				add('output-non-app-error', f'{m.key} = {m.text}: transpiling {m.enum}.{m.name}.value raised {out}, which is not an application error',
 					{'source': source, 'member': m.key, 'kind': 'output'})
 				continue
-			value_node = by_name[m.enum].var_value(m.name)
-			if isinstance(value_node, defs.String) and not re.fullmatch(r"'[^'\\\n]*'|\"[^\"\\\n]*\"", value_node.tokens):
-				# a lone triple-quoted / prefixed / escaped string literal never reaches the evaluator (py2cpp.py:846 emits tokens[1:-1]):
-				# quoting of string literals in the output is property C01's subject, not counted here
-				hist['info:lone-nonplain-string-literal'] = hist.get('info:lone-nonplain-string-literal', 0) + 1
-				continue
-			bad = compare_output(text, py[m.key], 'escape' in m.feats)
-			hist['value/py-error' if _is_exc(py[m.key]) else 'value/py-value'] = hist.get('value/py-error' if _is_exc(py[m.key]) else 'value/py-value', 0) + 1
-			if isinstance(value_node, defs.Factor) and not isinstance(value_node.value, defs.Literal):
+			text = common.unhx(out[5:])
+			shape = c.shape.get(m.key, '')
+			lone = shape.startswith('lone-string:') and not re.fullmatch(r"'[^'\\\n]*'|\"[^\"\\\n]*\"", shape[12:])
+			bad = compare_output(text, py[m.key], 'escape' in m.feats or lone)
+			k = 'value/py-error' if _is_exc(py[m.key]) else 'value/py-value'
+			hist[k] = hist.get(k, 0) + 1
+			if shape == 'signed-non-literal':
 				hist['shape:signed-non-literal'] = hist.get('shape:signed-non-literal', 0) + 1
+			if lone:
+				hist['shape:lone-nonplain-string-literal'] = hist.get('shape:lone-nonplain-string-literal', 0) + 1
 			if bad:
-				key = EXCLUDED_KEYS['escape'] if 'escape' in m.feats else f"output-mismatch:{(read_emitted(text) or ('text', None))[0]}-vs-{show_py(py[m.key]).split(' ')[0]}"
+				if lone:
+					key = LONE_LITERAL_KEY
+				elif 'escape' in m.feats:
+					key = EXCLUDED_KEYS['escape']
+				else:
+					key = f"output-mismatch:{(read_emitted(text) or ('text', None))[0]}-vs-{show_py(py[m.key]).split(' ')[0]}"
 				add(key, f'{m.key} = {m.text}: {bad}', {'source': source, 'member': m.key, 'text': m.text, 'emitted': text, 'eval': show_py(py[m.key]), 'features': sorted(m.feats), 'kind': 'output'})
 			elif len(res.samples) < 3 and len(m.text) > 10:
 				res.samples.append({'member': m.text, 'emitted': text, 'eval': show_py(py[m.key])})
-	novel = [f for f in res.findings if f.key not in EXCLUDED_KEYS.values()]
-	res.findings = novel + [f for f in res.findings if f.key in EXCLUDED_KEYS.values()]
+	known = set(EXCLUDED_KEYS.values()) | {LONE_LITERAL_KEY}
+	res.findings = [f for f in res.findings if f.key not in known] + [f for f in res.findings if f.key in known]
 	res.distinct = len(texts)
 	res.histogram = hist
 	res.note = ('modules whose enums are all-numeric or all-string (tranp types Enum.X.value by the first member), one function reading every Enum.Member.value; each read '
-		'transpiled by the real Py2Cpp (DI of test_py2cpp.py); the emitted literal parsed (number as is, string between the double quotes) and compared with CPython eval of the member value; '
-		'lone non-plain string literals are left to C01')
+		'transpiled by the real Py2Cpp (DI of test_py2cpp.py); the emitted literal parsed (number as is, optionally in parentheses; string between the double quotes, escapes decoded '
+		'when the member uses them) and compared with CPython eval of the member value')
 	return res
 
 
@@ -1215,10 +1319,11 @@ STATEMENTS = {
 def run(ctx: Ctx) -> int:
 	translate_ok, translate_msg = True, ''
 	try:
-		from translate import gen_eval_ops
+		from translate import gen_eval_ops, gen_literalize
 		ctx.generated_tables.extend(gen_eval_ops.generate())
+		ctx.generated_tables.extend(gen_literalize.generate())
 	except Exception as e:  # noqa: BLE001
-		translate_ok, translate_msg = False, f'gen_eval_ops: {type(e).__name__}: {e}'
+		translate_ok, translate_msg = False, f'translator: {type(e).__name__}: {e}'
 	proof = common.prove(ctx, PROP, leanchecker=ctx.thorough)
 	app = common.MemApp(ctx.tmpdir())
 	streams: list[Stream] = []
@@ -1231,8 +1336,18 @@ def run(ctx: Ctx) -> int:
 			ctx.notes.append(f'oracle rounds: {rounds}; cases dropped (not encodable): {sum(1 for c in cases if c.error)}')
 		with ctx.timed('correspondence'):
 			streams = [stream_impl(ctx, cases), stream_py(ctx, cases), stream_unescape(ctx)]
+	out_cases: list[Case] = []
+	if proof.built:
+		with ctx.timed('observe_output'):
+			out_cases = make_output_cases(ctx)
+		with ctx.timed('oracle_rounds'):
+			fill_oracles(out_cases)
+		with ctx.timed('correspondence'):
+			streams.append(stream_emit(ctx, out_cases))
+	else:
+		out_cases = make_output_cases(ctx)
 	with ctx.timed('search'):
-		searches = [search_real(ctx, app, cases), search_output(ctx)]
+		searches = [search_real(ctx, app, cases), search_output(ctx, out_cases)]
 	return common.finish(ctx, proof, streams, searches,
 		translate_ok=translate_ok, translate_msg=translate_msg,
 		statements=STATEMENTS,
@@ -1281,7 +1396,7 @@ def replay(ctx: Ctx, path: str) -> int:
 		for ms in enums:
 			for m in ms:
 				m.feats = set(feats) if m.key == inp.get('member') else set()
-		res = search_output(ctx, only=enums)
+		res = search_output(ctx, make_output_cases(ctx, only=enums))
 		hits = [f for f in res.findings if inp.get('member') in (None, f.replay.get('member'))]
 		for f in hits:
 			print(f'replay: VIOLATES [{f.key}] {f.what}')
